@@ -226,3 +226,15 @@ func ReplayLines() []string {
 	}
 	return out
 }
+
+// SplitTraces cuts replay lines into traces: a trace starts at each line beginning with "reset".
+func SplitTraces(lines []string) [][]string {
+	var out [][]string
+	for _, l := range lines {
+		if strings.HasPrefix(l, "reset") || len(out) == 0 {
+			out = append(out, nil)
+		}
+		out[len(out)-1] = append(out[len(out)-1], l)
+	}
+	return out
+}
